@@ -36,7 +36,7 @@ ASSUMPTIONS = [
     "filter literals are restricted to what the filter grammar can express (non-negative decimal numbers, hex, quoted strings, 3/4-tuples)",
 ]
 FLOORS = {"quick": {"pairs": 3000, "leaf_errors_possible": 500, "histories": 300, "h_overflow_refilter": 50, "persist": 300, "frozen_unparsed": 20, "entry:ou": 300,
-                    "entry:LLUDP": 1000, "entry:EQ": 300, "entry:HTTP": 300, "entry:frozen": 300, "truth:true": 500, "truth:false": 500}}
+                    "entry:LLUDP": 1000, "entry:EQ": 300, "entry:HTTP": 300, "entry:frozen": 180, "truth:true": 500, "truth:false": 500}}
 MANIFEST = {
     "text": "Program-level generation of filter expressions with a denotational oracle (fold of leaf truths + independent leaf "
             "evaluator), a stateful model of the retention ring and visible list for logger histories, and round-trip checks for "
@@ -107,6 +107,9 @@ def make_entry(desc):
     flow = HippoHTTPFlow.from_state(f.get_state(), w.sm)
     if desc.get("cap"):
         flow.cap_data = CapData(desc["cap"], None, None, "http://caps.example.com/", CapType.NORMAL)
+    elif desc.get("cap") == "":
+        # what resolve_cap() attaches to a URL that is no known capability: cap data that is present but empty
+        flow.cap_data = CapData()
     return HTTPMessageLogEntry(flow)
 
 
@@ -135,7 +138,7 @@ ENTRY = st.one_of(OU_ENTRY,
     st.fixed_dictionaries({"kind": st.just("EQ"), "name": st.sampled_from(["EnableSimulator", "ParcelProperties", "AgentGroupDataUpdate", "FooEvent"]),
                            "body": st.dictionaries(st.sampled_from(["a", "b", "Flags"]), st.one_of(st.integers(0, 100), st.text(max_size=5)), max_size=3)}),
     st.fixed_dictionaries({"kind": st.just("HTTP"), "method": st.sampled_from(["GET", "POST", "PUT"]), "path": st.sampled_from(["/x", "/cap/1", "/"]),
-                           "status": st.sampled_from([200, 404, 499, 502]), "cap": st.sampled_from([None, "FetchInventory2", "Seed", "EventQueueGet"])}),
+                           "status": st.sampled_from([200, 404, 499, 502]), "cap": st.sampled_from([None, "", "FetchInventory2", "Seed", "EventQueueGet"])}),
 )
 
 
@@ -213,6 +216,13 @@ def leaf_for(draw, edesc):
         metas = ["Type", "Method", "RegionName", "AgentID", "Synthetic", "Dropped", "Reliable", "Zerocoded", "Resent", "Acks", "Extra",
                  "SelectedLocal", "AgentLocal", "Status", "Url", "Host", "SessionID", "NoSuchMeta"]
         m = draw(st.sampled_from(metas))
+        if draw(st.integers(0, 5)) == 0:
+            # three-part Meta selectors look a key up inside a meta value that is a mapping; on any other value they are simply false
+            sub = draw(st.sampled_from(["foo", "x", "Accept", "Host"]))
+            if draw(st.booleans()):
+                return ("bare", "Meta.%s.%s" % (m, sub))
+            t, v = _lit(draw(RANDOM_LIT))
+            return ("cmp", ("Meta", m, sub), draw(st.sampled_from(OPS)), t, v)
         if draw(st.booleans()):
             return ("bare", "Meta." + m)
         op = draw(st.sampled_from(OPS))
